@@ -29,7 +29,7 @@ THOROUGH = {
     "C09": ["miri", "asan", "zlib"],
     "C10": ["tsan", "miri"],
     "C11": ["tsan", "miri"],
-    "C12": ["miri"],
+    "C12": ["miri", "tsan"],
     "C13": ["release-plain", "miri", "fuzz"],
     "C14": ["miri"],
     "C15": [],
